@@ -50,7 +50,24 @@ void* urisim_trap_realloc(UriMemoryManager*, void*, size_t) { violate(V_TRAP, "r
 void* urisim_trap_reallocarray(UriMemoryManager*, void*, size_t, size_t) { violate(V_TRAP, "reallocarray slot of a malloc/free-only backend was called", true); return nullptr; }
 }
 
-std::vector<MgrInst> build_managers(const std::vector<int>& kinds, const std::vector<int>& masks) {
+// uriCompleteMemoryManager(out, backend) under the monitor like any other library call: the backend table is a read-only
+// argument, the new table the only output
+void complete_manager(MgrInst& m) {
+    UriMemoryManager* t = m.backend;
+    UriMemoryManager* c = (UriMemoryManager*)arena_alloc(A_OBJ, sizeof(UriMemoryManager), 16, P_RW);
+    arena_alloc(A_OBJ, 32, 1, perm(0, RS_REDZONE));
+    memset(c, 0, sizeof *c);
+    set_perm(t, sizeof *t, perm(P_R, RS_CONST_ARG));
+    volatile int rc = 0; bool ok = false;
+    call_begin(g.cur->op, -1, -1, FaultPlan());
+    LIBCALL_RUN({ rc = uriCompleteMemoryManager(c, t); }, ok);
+    call_end();
+    if (ok && rc != URI_SUCCESS) violate(V_WRONG_RC, "uriCompleteMemoryManager failed on a backend that offers malloc and free", false);
+    m.table = c;
+    set_perm(c, sizeof *c, perm(P_R, RS_CONST_ARG));
+}
+
+std::vector<MgrInst> build_managers(const std::vector<int>& kinds, const std::vector<int>& masks, bool defer_completion) {
     std::vector<MgrInst> v;
     for (size_t i = 0; i < kinds.size(); i++) {
         MgrInst m; m.kind = kinds[i]; m.id = kinds[i] == MK_LIBC ? 0 : (int)i + 1; m.mask = i < masks.size() ? masks[i] : 31;
@@ -75,13 +92,7 @@ std::vector<MgrInst> build_managers(const std::vector<int>& kinds, const std::ve
                 t->malloc = urisim_cb_malloc; t->free = urisim_cb_free; t->userData = m.rec;
                 t->calloc = urisim_trap_calloc; t->realloc = urisim_trap_realloc; t->reallocarray = urisim_trap_reallocarray;
                 m.backend = t;
-                UriMemoryManager* c = (UriMemoryManager*)arena_alloc(A_OBJ, sizeof(UriMemoryManager), 16, P_RW);
-                arena_alloc(A_OBJ, 32, 1, perm(0, RS_REDZONE));
-                memset(c, 0, sizeof *c);
-                int rc = uriCompleteMemoryManager(c, t);
-                if (rc != URI_SUCCESS) violate(V_WRONG_RC, "uriCompleteMemoryManager failed on a backend that offers malloc and free", false);
-                m.table = c;
-                set_perm(c, sizeof *c, perm(P_R, RS_CONST_ARG));
+                if (!defer_completion) complete_manager(m);
             }
             set_perm(t, sizeof *t, perm(P_R, RS_CONST_ARG));
         }
